@@ -42,6 +42,14 @@ add('C17', "property-based testing: exhaustive short strings over all meta-chara
     "exploration: find span == str::find span on texts derived from each string (embedded, doubled, near misses) for 9 hosts; borrow and shape of escape", "trusted: str::find", "DESIGN.md section 5 C17")
 add('C20', "property-based testing: stateful model-based test of the VM backtracking state (exhaustive short histories + proptest long histories with bursts) against a whole-state-copy model; program-level companion vs the reference matcher",
     "exploration: every step of every generated history compared (slots, branch count, auxiliary stack, pop results), final unwind included", "trusted: the hook wrapper forwards unchanged to the private State; the copy model is ~40 lines", "DESIGN.md section 5 C20")
+add('C07', "property-based testing: per-case threshold oracle from hook statistics (backtracks of the unlimited run) over a set of backtrack limits; reference-step bound for spurious limit errors; instruction/stack bounds",
+    "exploration: every VM-compiled generated (pattern, text, offset) under 8 (+3 exact) limits; sharp threshold L < B <=> error", REF + "; the run statistics hook", "DESIGN.md section 5 C07")
+add('C13', "property-based testing: instrumented reference matcher records the lengths every sub-expression really matches and compares them with the analysis facts read through the hook; differential on look-behind products over multi-byte texts",
+    "exploration: facts of every node of every generated pattern (also of patterns the compiler then rejects) against observed match lengths; look-behind behaviour against the reference", REF + "; conversion Expr -> reference AST (shape-checked per pattern)", "DESIGN.md section 5 C13")
+add('C18', "stress testing with a differential oracle (single-threaded results), proptest-generated call sequences, barrier start, in-flight overlap measurement; compile-time Send/Sync/Clone assertion crate",
+    "exploration (weakest check): the schedule is the OS's; a violation is only reported if provoked; results of every concurrent call compared with the single-threaded result", "trusted: nothing beyond std; no schedule control for regex-automata's pool with the installed tooling", "DESIGN.md section 5 C18")
+add('C19', "property-based testing: metamorphic respelling (11 transformers over the token stream) with tree equality via Expr::parse_tree and behavioural equality; printer/parser/conversion round trip",
+    "exploration: every generated pattern x 11 respellings; trees equal (modulo the case flag of caseless literals) and captures equal on every text and offset", NOREF, "DESIGN.md section 5 C19")
 
 import os
 TABLE = '/verif/tools/manifest_table.json'
